@@ -111,7 +111,16 @@ def shrink_sim(binary, case):
     for i in range(len(cur['kernels'])):
         bs = vlib.ddmin(cur['kernels'][i], lambda bs: fails(dict(cur, kernels=cur['kernels'][:i] + [bs] + cur['kernels'][i + 1:])), budget=20)
         cur = dict(cur, kernels=cur['kernels'][:i] + [bs] + cur['kernels'][i + 1:])
-    for cand in ([{'sms': 1, 'subs': 1}], [{'sms': 1, 'subs': 2}], cur['gpus'][:1]):
+    for i in range(len(cur['kernels'])):
+        for j in range(len(cur['kernels'][i])):
+            def with_warps(ws, i=i, j=j):
+                k = cur['kernels'][i][:j] + [ws] + cur['kernels'][i][j + 1:]
+                return dict(cur, kernels=cur['kernels'][:i] + [k] + cur['kernels'][i + 1:])
+            ws = vlib.ddmin(cur['kernels'][i][j], lambda ws: fails(with_warps(ws)), budget=12)
+            cur = with_warps(ws)
+    g0 = cur['gpus'][0]
+    for cand in ([{'sms': 1, 'subs': 1}], [{'sms': 1, 'subs': 2}], [{'sms': 1, 'subs': g0['subs']}],
+                 [{'sms': g0['sms'], 'subs': 1}], cur['gpus'][:1]):
         c2 = dict(cur, gpus=cand)
         if fails(c2):
             cur = c2
@@ -223,7 +232,8 @@ def main(argv):
         'evaluations': len(sim_cases) + len(trace_cases),
         'distinct_nontrivial': len({vlib.case_hash(sim_strip(c)) for c in sim_cases if sim_nontrivial(c)})
                                + len({vlib.case_hash(c['kernel']) for c in trace_cases if T.nontrivial(c)}),
-        'rule': 'sim: 1-3 devices x 1-4 SMs x 1-4 sub-cores (per-device shapes differ in 2/3 of the cases), 1-3 kernels, ragged blocks/warps, '
+        'rule': 'sim: 1-4 devices x 1-8 SMs x 1-8 sub-cores in four profiles (small 1-3x1-4x1-4; wide: 5-8 sub-cores per SM with blocks of 5-12 warps '
+                'and more blocks than SMs; many: 5-8 SMs per device with 9-14 blocks per kernel; mixed: anything up to 4x8x8); per-device shapes differ in 2/3 of the cases, 1-3 kernels, ragged blocks/warps, '
                 'every third case with 0-instruction warps / 0-warp blocks / 0-block kernels, both clock configurations (components 1 Hz with 1 GHz '
                 'connections as nvidia.go, and all 1 GHz); non-trivial = at least 2 thread blocks and 3 warps on at least 2 sub-cores. '
                 'trace: streams valid / wide (beyond field widths, unknown registers) / lines (damaged files); non-trivial = has a memory instruction or is a raw-lines case',
@@ -231,6 +241,10 @@ def main(argv):
         'engine_events_replayed': sum(c.get('nevents', 0) for c in sim_cases),
         'event_histogram': dict(ev_hist),
         'platform_shapes': len(shapes),
+        'profiles': dict(collections.Counter(c.get('tag') or 'small' for c in sim_cases)),
+        'max_subcores_per_sm': max([g['subs'] for c in sim_cases for g in c['gpus']] or [0]),
+        'max_sms_per_device': max([g['sms'] for c in sim_cases for g in c['gpus']] or [0]),
+        'max_warps_per_block': max([len(b) for c in sim_cases for k in c['kernels'] for b in k] or [0]),
         'degenerate_sim_cases': sum(1 for c in sim_cases if any(len(k) == 0 or any(len(b) == 0 or 0 in b for b in k) for k in c['kernels'])),
         'full_buffer_cases': sum(1 for c in sim_cases if any(4 in st['bufs'] for st in c.get('final', [])) or c.get('tag') == 'full'),
         'trace_streams': dict(collections.Counter(c['kernel'].get('tag', '?') for c in trace_cases)),
